@@ -355,6 +355,104 @@ def check_restore(ck, prog):
     ck.floor("C11-RESTORE", 8)
 
 
+UNINIT_EXCEPT = {
+    "lzma_get_check": "check.h: may be called only immediately after lzma_code() returned LZMA_NO_CHECK, "
+                      "LZMA_UNSUPPORTED_CHECK or LZMA_GET_CHECK; any other call is documented as undefined behaviour",
+}
+
+
+def check_uninit(ck, prog):
+    """The handle may be passed to every lzma_stream function as soon as it holds LZMA_STREAM_INIT, i.e. with
+    strm->internal == NULL ("at least initialized with LZMA_STREAM_INIT"): a public function that reads through
+    strm->internal must have tested it (or allocated it with lzma_strm_init) on every path to that read."""
+    ck.rule("C11-UNINIT", "in every public function taking an lzma_stream, each access through strm->internal is "
+            "preceded on every path by a NULL test of strm->internal or by lzma_strm_init()")
+    n = 0
+    for f in sorted(prog.all_functions("liblzma"), key=lambda f: (f.file, f.line)):
+        if not f.blocks or f.static:
+            continue
+        sp = [v["n"] for v in f.vars if v.get("param") and v.get("prec") == "lzma_stream"]
+        if not sp:
+            continue
+        for P in sp:
+            base = "%s->internal" % P
+
+            def through(e):
+                for x in ex.walk(e, into_refs=False):
+                    if x.get("k") == "mem" and x.get("b") is not None and ex.show(ex.strip(x["b"])).startswith(base):
+                        return x
+                return None
+            sites = []
+            for b, i, e in f.iter_elems():
+                x = through(e)
+                if x is not None:
+                    sites.append((b.id, i, e, x))
+            for bid, blk in f.blocks.items():
+                if blk.term and "cond" in blk.term:
+                    x = through(blk.term["cond"])
+                    if x is not None and not any(s[0] == bid for s in sites):
+                        sites.append((bid, len(blk.elems), blk.term["cond"], x))
+            if not sites:
+                continue
+            # blocks after which the handle is known to be allocated
+            def null_test(blk):
+                """-> index of the successor on which strm->internal is non-NULL, or None"""
+                t = blk.term
+                if not t or "cond" not in t or len(blk.succs) != 2:
+                    return None
+                c = ex.strip(t["cond"])
+                if c is None:
+                    return None
+                if c.get("k") == "bin" and c["op"] in ("==", "!="):
+                    l, r = ex.strip(c["l"]), ex.strip(c["r"])
+                    for a, z in ((l, r), (r, l)):
+                        if ex.show(a) == base and ex.is_const(z, 0):
+                            return 1 if c["op"] == "==" else 0
+                if c.get("k") == "un" and c["op"] == "!" and ex.show(ex.strip(c["e"])) == base:
+                    return 1
+                if ex.show(c) == base:
+                    return 0
+                return None
+            seen = set()
+            st = [(f.entry, 0)]
+            reach = {}          # block -> smallest element index reachable unguarded
+            while st:
+                bid, _ = st.pop()
+                if bid in seen or bid is None:
+                    continue
+                seen.add(bid)
+                blk = f.blocks[bid]
+                stop_at = None
+                for i, e in enumerate(blk.elems):
+                    if any(c.get("fn") == "lzma_strm_init" for c in ex.calls(e, into_refs=False)):
+                        stop_at = i
+                        break
+                reach[bid] = stop_at if stop_at is not None else len(blk.elems) + 1
+                if stop_at is not None:
+                    continue
+                safe = null_test(blk)
+                for k, sx in enumerate(blk.succs):
+                    if sx is None or (safe is not None and k == safe):
+                        continue
+                    st.append((sx, 0))
+            for (bid, i, e, x) in sorted(sites, key=lambda s: (s[0], s[1])):
+                n += 1
+                bad = bid in reach and i < reach[bid]
+                if f.name in UNINIT_EXCEPT:
+                    ck.ob("C11-UNINIT", "%s:%s@B%d" % (f.name, ex.show(x)[:40], bid), True, common.where(f, e),
+                          "exception: " + UNINIT_EXCEPT[f.name], key="UNINIT:%s:%s" % (f.name, x["f"]))
+                    continue
+                # a test of strm->internal inside the same condition (a && b) is split by the CFG, so this is exact
+                ck.ob("C11-UNINIT", "%s:%s@B%d" % (f.name, ex.show(x)[:40], bid), not bad, common.where(f, e),
+                      "%s(): `%s` is read only after %s was tested / allocated" % (f.name, ex.show(x)[:60], base) if not bad else
+                      "%s(): `%s` is read on a path from the entry on which %s was neither tested for NULL nor allocated by "
+                      "lzma_strm_init(): a handle that holds LZMA_STREAM_INIT (or was ended with lzma_end) makes the "
+                      "function dereference NULL instead of returning LZMA_PROG_ERROR" % (f.name, ex.show(x)[:60], base),
+                      key="UNINIT:%s:%s" % (f.name, x["f"]))
+    ck.floor("C11-UNINIT", 20)
+    return n
+
+
 def run(ck):
     ck.explanation = (
         "The transition relation of lzma_code() is extracted by exhaustive finite-domain abstract evaluation "
@@ -368,6 +466,7 @@ def run(ck):
     check_act(ck, prog)
     check_out_idx(ck, prog)
     check_restore(ck, prog)
+    check_uninit(ck, prog)
     # LZMA_BUF_ERROR is produced by lzma_code() only (second no-progress call), never by a coder (rule shared with C04)
     from . import C04
     C04.check_ret(ck, prog)
